@@ -172,6 +172,8 @@ class CallMixin:
             if declared:
                 # class invariant: objects that exist before the call were built by their __init__
                 self._add_axiom(z3.Implies(r < smt.FRESH_BASE, v != smt.ABSENT))
+                if self.is_old(obj):
+                    return v            # a pre-existing object: the attribute is set (no solver call needed)
             elif not c.builtin and c.lookup(name) is not None and c.lookup(name)[0] == 'attr':
                 # A-classes: class-level constants are not shadowed by instance attributes
                 self._add_axiom(z3.Implies(r < smt.FRESH_BASE, v == smt.ABSENT))
@@ -209,6 +211,7 @@ class CallMixin:
             self._add_axiom(z3.Implies(v != smt.ABSENT, self.type_formula(v, '=' + kind)))
             self.container_elem_type[smt.simp(v).get_id()] = inner
             if kind == 'list':
+                self.seq_elem_type[self.get_seq(v).get_id()] = inner
                 sq = smt.simp(z3.Select(self.strip_fresh(self.st.seq), Val.r(v)))
                 self.seq_elem_type[sq.get_id()] = inner
         else:
@@ -640,6 +643,7 @@ class CallMixin:
         if self.depth >= INLINE_DEPTH:
             self.unsupported(f'inline depth exceeded at {fi.qualname}', node)
         fr = Frame(fi, fi.module, parent=cframe, cls=fi.cls)
+        fr.is_spec = bool(fi.module is not None and fi.module.name.startswith(('spec.', 'contracts.')))
         if defaults is None:
             dfr = Frame(None, fi.module)
             defaults = self.eval_defaults(fi.node.args, dfr)
